@@ -186,17 +186,27 @@ func Main(args []string) int {
 	rep.Assume("transactions reach DeliverTx whether or not CheckTx accepted them; the DeliverTx result is what the model sees")
 	rep.Assume("the statement does not say from which height paid blocks count; the model uses the convention of creation and purchase (committed height = block height - 1) for every operation and for what 'expired' means")
 	// vacuity: every well-formed, authorised operation must have been accepted somewhere
-	var never []string
+	never := []string{}
+	hostile := map[string]int64{}
 	for _, e := range evs {
 		for _, o := range e.Ops {
 			if o.Legit && o.MinDepth <= st.DepthCompleted && st.Info["accepted:"+o.Name] == 0 {
 				never = append(never, o.Name)
 			}
+			if !o.Legit {
+				hostile[o.Name] = st.Info["accepted:"+o.Name]
+			}
 		}
 	}
+	if st.DepthCompleted >= 4 && st.Info["fired:price-options-changed"] == 0 {
+		never = append(never, "price-change macro-operation (the ONS option record never changed)")
+	}
 	rep.Set("legit_operations_never_accepted", never)
+	// operations built to be unauthorised or underpaid: the statement wants them refused, so "never accepted"
+	// is the expected outcome for them (an acceptance shows up as a violation of the clause concerned)
+	rep.Set("hostile_operations_accepted_count", hostile)
 	code := rep.Finish()
-	if len(never) > 0 && st.Exhaustive {
+	if len(never) > 0 {
 		fmt.Fprintf(harness.Out(), "%s: operations never accepted although well-formed and within depth: %v — the factory builds them wrongly or the bound is vacuous; refusing to report success\n", prop, never)
 		return 2
 	}
